@@ -732,3 +732,58 @@ def late_bad_jobs(start_run=1):
                                  "drain": True, "tag": "directed:late_bad"})
                     run += 1
     return jobs
+
+
+# ---------------------------------------------------------------------------------------------
+# Directed schedules: the old lifecycle's bookkeeping is slow.  Attempt 1 fails, its HTLC is failed back, and one of the
+# two writes of its "mark failed" bookkeeping is still on its way when the sender retries: the new lifecycle reads the
+# in-flight record, finds nothing in flight, frees the record, records attempt 2 and pays; a part of attempt 2 is
+# pending (or already complete, the command still running).  Only now the old lifecycle's write reaches the datastore
+# (it is refused: the generation moved on); whatever the old lifecycle does next is served.  Then either the node
+# crashes and the HTLC is replayed, or attempt 2 ends.  The record of attempt 2 stays in-flight (C08) and no further pay
+# is issued while it is (C05).
+def stale_tail_jobs(start_run=1):
+    jobs = []
+    run = start_run
+    cfg = dict(CFG_A)
+    p = pool(cfg, 10)
+    g = p["good"][2]
+    g2 = dict(g); g2["exp"] = g["exp"] + 1; g2["rel"] = g["rel"] + 1
+    ds = lambda key: {"kind": "ds", "hash": "h1", "key": key}
+    X = lambda sel, who="own", fault="none": {"a": "exec", "sel": sel, "fault": fault, "who": who}
+    D = lambda sel, who="own": {"a": "deliver", "sel": sel, "who": who}
+    lds = {"kind": "listds", "hash": "h1"}; payc = {"kind": "pay", "hash": "h1"}
+    lp = {"kind": "lists", "hash": "h1", "status": "pending"}; lc = {"kind": "lists", "hash": "h1", "status": "complete"}
+    for held in ("att", "state"):
+        for part in ("pending", "complete"):
+            for end in ("crash", "crash_tick", "complete", "failed"):
+                s = [{"a": "htlc", "i": 1}, X(lds), D(lds), X(ds("state")), D(ds("state")), X(ds("att")), D(ds("att")), X(payc),
+                     {"a": "payreturn", "sel": payc, "outcome": "failed"}, D(payc)]
+                if held == "state":
+                    s += [X(ds("att")), D(ds("att"))]
+                s += [{"a": "htlc", "i": 2}, X(lds), D(lds), X(lp), D(lp), X(lc), D(lc),
+                      X(ds("att")), D(ds("att")), X(ds("state")), D(ds("state")),       # the new lifecycle frees the record ...
+                      X(ds("state")), D(ds("state")), X(ds("att")), D(ds("att")),       # ... and records attempt 2
+                      X(payc), {"a": "paypart", "sel": payc}]
+                if part == "complete":
+                    s += [{"a": "partdone", "p": 1, "how": "complete", "code": 203}]
+                if held == "att":
+                    s += [X(ds("att"), "tail"), D(ds("att"), "tail")]
+                s += [X(ds("state"), "tail"), D(ds("state"), "tail")]
+                # whatever the old lifecycle does after the refusal
+                s += [X(lds, "tail"), D(lds, "tail"), X(ds("att"), "tail"), D(ds("att"), "tail"), X(ds("state"), "tail"), D(ds("state"), "tail")]
+                if end.startswith("crash"):
+                    s += [{"a": "crash", "lose": False}, {"a": "htlc", "i": 2}, X(lds), D(lds), X(lp), D(lp), X(lc), D(lc)]
+                    s += [{"a": "tick"}] * (cfg["mpp"] + 1 if end == "crash_tick" else 0)
+                    s += [X(ds("state")), D(ds("state")), X(ds("att")), D(ds("att")), X(payc), {"a": "paypart", "sel": payc}]
+                    if part == "pending":
+                        s += [{"a": "tick"}, {"a": "partdone", "p": 1, "how": "complete", "code": 203}]
+                    s += [X({"kind": "wait", "hash": "h1", "part": 1}), D({"kind": "wait", "hash": "h1", "part": 1})]
+                else:
+                    if part == "pending":
+                        s += [{"a": "partdone", "p": 1, "how": end, "code": 203}]
+                    s += [{"a": "payreturn", "sel": payc, "outcome": "complete" if part == "complete" else end}, D(payc)]
+                jobs.append({"run": run, "scen": {"cfg": cfg, "invs": invs_for(10), "htlcs": [g, g2], "probe": []}, "sched": s,
+                             "drain": True, "tag": "directed:stale_tail"})
+                run += 1
+    return jobs
